@@ -686,6 +686,18 @@ Dev_LocalReplyUnstamped(s, m0, fsnd) ==
             ELSE <<To(s, Msg(3, <<>>, fsnd, 0, m0.ser, <<>>, <<>>, <<>>, E_UnknownMethod, SigS, <<>>, 1, 0, "errtext"))>>
   /\ UNCHANGED <<act, fdx, cfg, cst, dying, uid, uname, everNames, queue, rules, pend, mon>>
 
+\* KNOWN DEFECT (deviation MonitorPeerAnsweredLocally): the library's built-in handler for org.freedesktop.DBus.Peer runs
+\* before the bus sees a message; a method call on that interface WITHOUT a destination is answered by it even when
+\* the caller is a monitor -- which therefore is the addressee of a delivery and is not disconnected for speaking.
+Dev_MonitorPeerAnsweredLocally(s, m0, fsnd) ==
+  /\ cst[s] = "monitor" /\ ~dying[s]
+  /\ m0.dst = <<>> /\ m0.ty = 1 /\ m0.ifc = S_org_freedesktop_DBus_Peer
+  /\ out' = IF (m0.fl % 2) = 1 THEN <<>>
+            ELSE IF m0.mem = S_Ping /\ m0.sig = <<>>
+            THEN <<To(s, Msg(2, <<>>, fsnd, 0, m0.ser, <<>>, <<>>, <<>>, <<>>, <<>>, <<>>, 1, 0, "exact"))>>
+            ELSE <<To(s, Msg(3, <<>>, fsnd, 0, m0.ser, <<>>, <<>>, <<>>, E_UnknownMethod, SigS, <<>>, 1, 0, "errtext"))>>
+  /\ UNCHANGED <<act, fdx, cfg, cst, dying, uid, uname, everNames, queue, rules, pend, mon>>
+
 \* anything else addressed to the driver: replies and signals are ignored, unknown methods refused
 DriverOther(s, m0) ==
   LET m == [m0 EXCEPT !.snd = IF cst[s] = "active" THEN uname[s] ELSE S_not_active_yet, !.org = s]
